@@ -76,6 +76,18 @@ def split_generic(ty):
     return base, out
 
 
+def wrap_int(v, ty):
+    """value of the integer v after `as ty`"""
+    m = re.match(r"^([iu])(8|16|32|64|128|size)$", ty or "")
+    if not m:
+        return v
+    bits = 64 if m.group(2) == "size" else int(m.group(2))
+    v &= (1 << bits) - 1
+    if m.group(1) == "i" and v >= 1 << (bits - 1):
+        v -= 1 << bits
+    return v
+
+
 def err_type(ty):
     b, a = split_generic(ty or "")
     if b == "core::result::Result" and len(a) == 2:
@@ -545,7 +557,7 @@ class Sym:
             if s.done is not None:
                 out.append((s, None))
             elif t[0] == "lit" and isinstance(t[1], int) and not isinstance(t[1], bool):
-                out.append((s, t))
+                out.append((s, ("lit", wrap_int(t[1], n.get("ty")))))
             elif t[0] == "ctor" and not t[2] and self.discriminant(t[1]) is not None:
                 out.append((s, ("lit", self.discriminant(t[1]))))
             else:
